@@ -2,8 +2,11 @@
  * (counter, head) pair is updated by the 16-byte compare_and_swap2.
  *
  * script ops:  push <node>   push a node this thread owns (initial owner per the scenario)
- *              pop           mpmc_lifo_pop; the result is stored in the tracked field t<i>.got
- *              repush        push the node of t<i>.got again (immediate reuse), no-op if null
+ *              pop           mpmc_lifo_pop; the result is stored in the tracked field t<i>.got and,
+ *                            if not NULL, appended to the thread's private hand
+ *              repush        push the OLDEST node of the hand again (immediate reuse; after "pop; pop"
+ *                            this is the ABA pattern: the first popped node comes back with a new next),
+ *                            no-op if the hand is empty
  */
 #include "mpmc_lifo.h"
 #include "thr_common.h"
@@ -18,6 +21,8 @@ typedef struct {
   char pad[56];
 } tres_t;
 static tres_t res[TMAXT];
+static __thread mpmc_lifo_node_t* hand[TMAXOPS];
+static __thread int hand_lo, hand_hi;
 
 static const vrt_field_t node_fields[] = {
     {"next", offsetof(mpmc_lifo_node_t, next), 8, VD_PTR, 0, 0},
@@ -66,9 +71,9 @@ static void drv_op(int tid, const char* op, const char* a1, const char* a2, cons
     mpmc_lifo_node_t* n = mpmc_lifo_pop(&q);
     vrt_api("\"f\":\"t%d\",\"ph\":\"ret\",\"op\":\"pop\",\"o\":\"%s\"", tid, vrt_name_of(n));
     res[tid].got = n; /* tracked: the spec must explain which node this thread received */
+    if (n) hand[hand_hi++] = n;
   } else if (!strcmp(op, "repush")) {
-    mpmc_lifo_node_t* n = res[tid].got;
-    if (n) do_push(tid, n);
+    if (hand_lo < hand_hi) do_push(tid, hand[hand_lo++]);
   } else {
     fprintf(stderr, "unknown op %s\n", op);
     exit(64);
